@@ -145,6 +145,10 @@ def run(chk):
         hist.append(("override", d, ("pipe", ("assign", below, v2), ("assign", P, w)), ("assign", P, w)))
         hist.append(("override-get", d, ("pipe", ("pipe", ("assign", below, v2), ("assign", P, w)), P), ("pipe", ("collect", w), ("index", ("self",), None))))
         hist.append(("update-first", d, ("update", P, ("union", w, v2)), ("update", P, w)))
+        kk = chk.rng.choice(evalgen.KEYS)
+        # with(p; u) runs u at p, creating p like an assignment does
+        hist.append(("with", d, ("with", P, ("assign", ("getkey", kk), w)), ("assign", path_expr(p + (kk,)), w)))
+        hist.append(("with", d, ("with", below, ("assign", ("self",), w)), ("assign", below, w)))
         hist.append(("update-first", d, ("update", P, ("union", ("union", v2, w), ("self",))), ("update", P, v2)))
     hout = evalcheck.impl_eval([(a, d) for _, d, a, b in hist] + [(b, d) for _, d, a, b in hist])
     for k, (law, d, a, b) in enumerate(hist):
